@@ -13,10 +13,10 @@ treats handler tasks, and of the K-slot schedule that decides *when* each reques
   (once `close()` ran, the tasks still in flight are cancelled and nothing more is written:
   later completions are cut off).  Members of a request batch are answered by one batch
   response, emitted when `len(parts) == count`.
-* `schedule`: all items arrive at time 0; `slots` of them run at once (FIFO semaphore), each
-  first sleeps `throttle` seconds (`_cost_fraction * cost_sleep`), then runs its handler for
-  `dur`; whatever has not finished at `deadline` (`processing_timeout`, which covers the wait
-  for a slot and the throttle sleep) overruns.  `runTimed` = `serve` over the resulting
+* `schedule`: items arrive at their instants `arr`; `slots` of them run at once (FIFO
+  semaphore), each first sleeps `throttle` seconds (`_cost_fraction * cost_sleep`), then runs its
+  handler for `dur`; whatever has not finished `deadline` after its arrival (`processing_timeout`,
+  which covers the wait for a slot and the throttle sleep) overruns.  `runTimed` = `serve` over the resulting
   completion order.
 
 No Mathlib imports.
@@ -237,6 +237,8 @@ structure TItem where
   item : Item
   /-- running time of the handler before it behaves as `item.outcome` -/
   dur : Nat
+  /-- instant of arrival (ascending along the list of arrivals) -/
+  arr : Nat := 0
   deriving Repr, DecidableEq
 
 def insertSorted (x : Nat) : List Nat → List Nat
@@ -246,19 +248,21 @@ def insertSorted (x : Nat) : List Nat → List Nat
 def overrun (it : Item) : Item := { it with outcome := .overruns }
 
 /-- one arrival.  `free` = the instants at which the slots become free, ascending.  Returns the
-new slot list and the completion (instant, item with the outcome that takes effect). -/
+new slot list and the completion (instant, item with the outcome that takes effect).  The
+processing timeout runs from the arrival: it covers the wait for a slot and the throttle sleep. -/
 def arrive (tm : Timing) (free : List Nat) (ti : TItem) : List Nat × (Nat × Item) :=
   match free with
-  | [] => (free, (tm.deadline, overrun ti.item))
-  | a :: rest =>
-    if tm.deadline ≤ a then
+  | [] => (free, (ti.arr + tm.deadline, overrun ti.item))
+  | f :: rest =>
+    let a := max f ti.arr          -- the instant the request gets its slot
+    if ti.arr + tm.deadline ≤ a then
       -- still queued on the semaphore when the timeout expires: takes no slot
-      (free, (tm.deadline, overrun ti.item))
+      (free, (ti.arr + tm.deadline, overrun ti.item))
     else if ti.item.outcome = .excessiveCost then
       -- refused on entering the limiter: the slot is handed back at once
       (insertSorted a rest, (a, ti.item))
-    else if ti.item.outcome = .overruns ∨ tm.deadline ≤ a + tm.throttle + ti.dur then
-      (insertSorted tm.deadline rest, (tm.deadline, overrun ti.item))
+    else if ti.item.outcome = .overruns ∨ ti.arr + tm.deadline ≤ a + tm.throttle + ti.dur then
+      (insertSorted (ti.arr + tm.deadline) rest, (ti.arr + tm.deadline, overrun ti.item))
     else
       (insertSorted (a + tm.throttle + ti.dur) rest, (a + tm.throttle + ti.dur, ti.item))
 
